@@ -7,9 +7,12 @@ From IweV Require Import ReaderTotal.
 Local Open Scope string_scope.
 Local Open Scope list_scope.
 
-(* The variant of the model the implementation is expected to match.  The pinned tree has
-   neither repair: [as_found].  With fix-c13-crlf.patch applied set v_crlf := true, with
-   fix-c13-utf16.patch applied set v_utf16 := true (then the classes 1 / 2 become empty). *)
+(* The variant of the model the implementation is expected to match: /repo's current tree has
+   every repair of Pos.variant (CRLF line table, UTF-16 columns, line_range of a list with an
+   empty first item, child_inlines of a table, line range of an implicit paragraph), so the
+   classes 1 / 2 are empty and the former classes 4 (tight item), 5 (table cell) and 7 (empty
+   first item) no longer exist: a failure there is a VIOLATION.  A tree without one of those
+   commits corresponds to the variant with that flag off. *)
 Definition C13_variant : variant := repaired.
 
 (* strings with control characters arrive as byte lists *)
@@ -49,7 +52,7 @@ Definition grid (rows : list (nat * nat)) : list pos :=
   flat_map (fun r => map (fun c => (fst r, c)) (seq 0 (snd r))) rows.
 
 Definition model_link_at (d : list pblock) (p : pos) : option lres :=
-  match link_at d p with
+  match link_at C13_variant d p with
   | Ok None => None
   | Ok (Some l) => match key_range l with Ok k => Some (LHit l k) | Panic _ => Some LPanic end
   | Panic _ => Some LPanic
@@ -77,14 +80,13 @@ Fixpoint alookup_nat {A} (k : nat) (l : list (nat * A)) : option A :=
 
 (* ---------- the oracle side: links and ranges from pulldown's events ------------------- *)
 
-(* links in event order with their byte range, and whether they are inside a table *)
-Fixpoint ev_links (evs : list ev) (tables : nat) : list (link_type * string * (nat * nat) * bool) :=
+(* links in event order with their byte range (in paragraphs, headings, items, quotes and
+   table cells alike) *)
+Fixpoint ev_links (evs : list ev) : list (link_type * string * (nat * nat)) :=
   match evs with
   | [] => []
-  | EStart TTable _ _ :: r => ev_links r (S tables)
-  | EEnd TTable :: r => ev_links r (tables - 1)
-  | EStart (TLink lt url) s e :: r => (lt, url, (s, e), negb (Nat.eqb tables 0)) :: ev_links r tables
-  | _ :: r => ev_links r tables
+  | EStart (TLink lt url) s e :: r => (lt, url, (s, e)) :: ev_links r
+  | _ :: r => ev_links r
   end.
 
 (* byte offsets the reader converts to a line, and those it converts to a line and column *)
@@ -126,7 +128,7 @@ Fixpoint block_ranges (b : pblock) : list lrange :=
   let fix go_items (l : list (list pblock)) : list lrange :=
     match l with [] => [] | it :: r => go it ++ go_items r end in
   match b with
-  | BPara lr _ | BHeader lr _ | BCode lr | BRule lr | BTable lr => [lr]
+  | BPara lr _ | BHeader lr _ | BCode lr | BRule lr | BTable lr _ _ => [lr]
   | BQuote lr bs => lr :: go bs
   | BList items => go_items items
   end.
@@ -139,6 +141,7 @@ Fixpoint block_links (b : pblock) : list pinl :=
     match l with [] => [] | it :: r => go it ++ go_items r end in
   match b with
   | BPara _ l | BHeader _ l => links_of_list l
+  | BTable _ h rows => links_of_list (concat h ++ concat (concat rows))
   | BQuote _ bs => go bs
   | BList items => go_items items
   | _ => []
@@ -172,14 +175,16 @@ Definition key_range_exact (t : string) (l : pinl) (src : nat * nat) : bool :=
   | _ => false
   end.
 
-(* source of the shape `[label](url)` with the label written as its plain text *)
+(* source of the shape `[label](url)` on one line, with the label written as its plain text
+   (the class of C13_key_range: start and end of the link on the same line) *)
 Definition plain_inline_link (t : string) (l : pinl) (src : nat * nat) : bool :=
   match l with
   | PNode (KLink Regular url) _ _ =>
       let s := fst src in let e := snd src in
       let n := plain_len l in
       String.eqb (slice t s (S s)) "[" &&
-      String.eqb (slice t (S s + n) e) ("](" ++ url ++ ")")
+      String.eqb (slice t (S s + n) e) ("](" ++ url ++ ")") &&
+      negb (contains_char LF (slice t s e))
   | _ => false
   end.
 
@@ -205,65 +210,37 @@ Definition cls_last_line (t : string) (evs : list ev) : bool :=
   existsb (fun e => existsb (fun r => negb (lrange_eqb (to_line_range ls (fst r) (snd r)) (spec_lines t (fst r) (snd r))))
                             (line_offsets e)) evs.
 
-(* 4: an implicit paragraph (tight item, text directly in a quote) whose inlines lie on more
-      lines than its first inline *)
-Definition cls_implicit (t : string) (evs : list ev) : bool :=
-  negb (docs_eqb (read_events (spec_mode t) evs)
-                 (read_events (Mode (spec_lines t) (spec_span t) false) evs)).
-
-(* 5: a link in a table cell *)
-Definition cls_table_link (evs : list ev) : bool :=
-  existsb (fun l => snd l) (ev_links evs 0).
-
 (* 6: a link whose source is not `[plain label](url)`: wiki link, title, reference link,
       autolink, label with markup / escapes / entities, non-ASCII label *)
 Definition cls_key_range (t : string) (evs : list ev) : bool :=
   match read_events (spec_mode t) evs with
   | Ok d =>
       let ls := doc_links d in
-      let es := filter (fun l => negb (snd l)) (ev_links evs 0) in
-      negb (forallb2 (fun l e => let '(_, _, src, _) := e in
+      let es := ev_links evs in
+      negb (forallb2 (fun l e => let '(_, _, src) := e in
                                  plain_inline_link t l src && all_ascii (slice t (fst src) (snd src))) ls es)
   | Panic _ => true
   end.
 
-(* 7: a list whose first item is empty: line_range panics (F3) *)
-Fixpoint has_bad_list (b : pblock) : bool :=
-  let fix go (l : list pblock) : bool := match l with [] => false | x :: r => has_bad_list x || go r end in
-  let fix go_items (l : list (list pblock)) : bool := match l with [] => false | it :: r => go it || go_items r end in
-  match b with
-  | BQuote _ bs => go bs
-  | BList items => bad_list b || go_items items
-  | _ => false
-  end.
-Definition cls_bad_list (t : string) (evs : list ev) : bool :=
-  match read_events (spec_mode t) evs with
-  | Ok d => existsb has_bad_list d
-  | Panic _ => false
-  end.
-
 (* block ranges as predicted with exactly the defects [c1] (line starts as the variant computes
-   them), [c3] (to_line_range's end line) and [c4] (implicit paragraph = first inline) *)
+   them) and [c3] (to_line_range's end line); the range of a paragraph grows with its inlines
+   as the variant says ([v_tight]) *)
 Definition lines_with (vr : variant) (t : string) (c1 c3 : bool) : nat -> nat -> lrange :=
   let ls := if c1 then line_starts vr t else line_starts_fixed t in
   if c3 then to_line_range ls
   else fun s e => (fst (locate ls s), S (fst (locate ls (if Nat.ltb s e then e - 1 else s)))).
-Definition ranges_with (vr : variant) (t : string) (evs : list ev) (c1 c3 c4 : bool) : option (list lrange) :=
-  match read_events (Mode (lines_with vr t c1 c3) (spec_span t) (negb c4)) evs with
+Definition ranges_with (vr : variant) (t : string) (evs : list ev) (c1 c3 : bool) : option (list lrange) :=
+  match read_events (Mode (lines_with vr t c1 c3) (spec_span t) (v_tight vr)) evs with
   | Ok d => Some (doc_ranges d)
   | Panic _ => None
   end.
 (* the smallest set of those defects that predicts the observed block ranges *)
 Definition explain_ranges (vr : variant) (t : string) (evs : list ev) (obs : list lrange) : option (list N) :=
-  let try (c1 c3 c4 : bool) := option_eqb (list_eqb lrange_eqb) (ranges_with vr t evs c1 c3 c4) (Some obs) in
-  if try false false false then Some ([]%N)
-  else if try true false false then Some ([1]%N)
-  else if try false true false then Some ([3]%N)
-  else if try false false true then Some ([4]%N)
-  else if try true true false then Some ([1; 3]%N)
-  else if try true false true then Some ([1; 4]%N)
-  else if try false true true then Some ([3; 4]%N)
-  else if try true true true then Some ([1; 3; 4]%N)
+  let try (c1 c3 : bool) := option_eqb (list_eqb lrange_eqb) (ranges_with vr t evs c1 c3) (Some obs) in
+  if try false false then Some ([]%N)
+  else if try true false then Some ([1]%N)
+  else if try false true then Some ([3]%N)
+  else if try true true then Some ([1; 3]%N)
   else None.
 
 (* ---------- run ------------------------------------------------------------------------ *)
@@ -279,9 +256,8 @@ Definition run (c : case) : verdict :=
   let ps := grid (o_rows c) in
   let model_doc := read_events (code_mode vr t) evs in
   let ref_doc := read_events (spec_mode t) evs in
-  let links := ev_links evs 0 in
-  let links_nt := filter (fun l => negb (snd l)) links in
-  let spans := map (fun l => let '(lt, url, (s, e), _) := l in (lt, url, spec_span t s e)) links in
+  let links := ev_links evs in
+  let spans := map (fun l => let '(lt, url, (s, e)) := l in (lt, url, spec_span t s e)) links in
   (* correspondence *)
   let corr :=
     (* 1: the reader's blocks and inlines with their line / inline ranges *)
@@ -307,30 +283,21 @@ Definition run (c : case) : verdict :=
                               | Some o => olink_eqb o (expected_link spans p)
                               | None => false
                               end) ps in
-  (* the same, not counting links in table cells and positions where link_at panics *)
-  let spans_nt := map (fun l => let '(lt, url, (s, e), _) := l in (lt, url, spec_span t s e)) links_nt in
-  let p1_excused := forallb (fun p => match lookup_hit (o_hits c) p with
-                                      | Some LPanic => true
-                                      | r => match observed_link r with
-                                             | Some o => olink_eqb o (expected_link spans_nt p)
-                                             | None => false
-                                             end
-                                      end) ps in
   let obs_links := match o_doc c with Ok d => doc_links d | Panic _ => [] end in
   let p2 := match o_doc c with
-            | Ok d => forallb2 (fun l e => let '(_, _, (s, e'), _) := e in irange_eqb (inline_range l) (spec_span t s e'))
-                               obs_links links_nt
+            | Ok d => forallb2 (fun l e => let '(_, _, (s, e')) := e in irange_eqb (inline_range l) (spec_span t s e'))
+                               obs_links links
             | Panic _ => false
             end in
   let p3 := match o_doc c with
-            | Ok d => forallb2 (fun l e => let '(_, _, src, _) := e in key_range_exact t l src) obs_links links_nt
+            | Ok d => forallb2 (fun l e => let '(_, _, src) := e in key_range_exact t l src) obs_links links
             | Panic _ => false
             end in
   (* the same for links written `[plain ASCII label](url)` only *)
   let p3_plain := match o_doc c with
-            | Ok d => forallb2 (fun l e => let '(_, _, src, _) := e in
+            | Ok d => forallb2 (fun l e => let '(_, _, src) := e in
                                            implb (plain_inline_link t l src && all_ascii (slice t (fst src) (snd src)))
-                                                 (key_range_exact t l src)) obs_links links_nt
+                                                 (key_range_exact t l src)) obs_links links
             | Panic _ => false
             end in
   let p4 := match o_doc c, ref_doc with
@@ -358,14 +325,11 @@ Definition run (c : case) : verdict :=
   let k1 := cls_crlf vr t evs in
   let k2 := cls_utf16 vr t evs in
   let k3 := cls_last_line t evs in
-  let k4 := cls_implicit t evs in
-  let k5 := cls_table_link evs in
   let k6 := cls_key_range t evs in
-  let k7 := cls_bad_list t evs in
   (* which classes can break which sub-property *)
   let rel (i : N) : list (N * bool) :=
     match i with
-    | 1 => [(1, k1); (2, k2); (3, k3); (4, k4); (5, k5 && p1_excused); (7, k7 && p1_excused)]
+    | 1 => [(1, k1); (2, k2); (3, k3)]
     | 2 => [(1, k1); (2, k2)]
     | 3 => [(1, k1); (2, k2); (6, k6 && p3_plain)]
     | 4 => match o_doc c with
@@ -375,12 +339,12 @@ Definition run (c : case) : verdict :=
                      end
            | Panic _ => []
            end
-    | _ => [(1, k1); (3, k3); (4, k4)]
+    | _ => [(1, k1); (3, k3)]
     end%N in
   let hit (i : N) : list N := map fst (filter snd (rel i)) in
   (* a failing sub-property that no class of the input explains leaves the case unclassified *)
   let cls := if forallb (fun i => negb (Nat.eqb (length (hit i)) 0)) prop
-             then filter (fun k => existsb (fun i => mem k (hit i)) prop) [1; 2; 3; 4; 5; 6; 7]%N
+             then filter (fun k => existsb (fun i => mem k (hit i)) prop) [1; 2; 3; 6]%N
              else [] in
   V corr prop cls (dom && negb (Nat.eqb (length links) 0) && Nat.ltb 1 (length (o_rows c))).
 
@@ -390,6 +354,5 @@ Definition run_classes (c : case) : verdict :=
   let v := run c in
   V (v_corr v) (v_prop v)
     (flag 1 (negb (cls_crlf vr t evs)) ++ flag 2 (negb (cls_utf16 vr t evs)) ++ flag 3 (negb (cls_last_line t evs)) ++
-     flag 4 (negb (cls_implicit t evs)) ++ flag 5 (negb (cls_table_link evs)) ++ flag 6 (negb (cls_key_range t evs)) ++
-     flag 7 (negb (cls_bad_list t evs)))
+     flag 6 (negb (cls_key_range t evs)))
     (v_nontriv v).
